@@ -39,6 +39,16 @@ def run(ctx, replay):
     else:
         random.Random(ctx.seed).shuffle(cases)
         cases = cases[:6000]
+    # the same trees under a chain of 4..9 nested groups: the walk's rule does not depend on the depth, the bounded model stops at
+    # MaxDepth - the trace specification (recursive over the tree) judges these like any other tree
+    rnd = random.Random(ctx.seed * 7919 + 1)
+    deep = []
+    for k, c in enumerate(rnd.sample(cases, min(len(cases), 1500 if thorough else 500))):
+        t = c["tree"]
+        for _ in range(4 + k % 6):
+            t = [{"kind": "group", "env": [], "kids": t}]
+        deep.append(dict(c, tree=t))
+    cases = cases + deep
     traces, sums = vlib.drive_cases(ctx, "c06", cases, nchunks=16)
     n, bad = vlib.judge(ctx, "Trace_SignSteps", traces)
     vlib.report_bad(ctx, bad, sig, desc,
@@ -52,7 +62,7 @@ def run(ctx, replay):
         "distinct_nontrivial": sum(1 for c in cases if c["tree"]),
         "rule": "every step tree with <= MaxNodes nodes over {command (step env {} or {A}), wait, input, trigger, unknown, group} nested to "
                 "MaxDepth, x pipeline env in {{}, {A}, {A,B}}; key kind rotates over EdDSA, ES512, PS512, ES256 signer. Quick replays a seeded "
-                "sample of 6000 of the trees TLC enumerated, thorough all (and one more node). Decorations by the case: empty / shadowing step env "
+                "sample of 6000 of the trees TLC enumerated, thorough all (and one more node); 500 (1500) of them are also run under a chain of 4..9 nested groups. Decorations by the case: empty / shadowing step env "
                 "values, step-only names, stale signatures (own, or ONE object shared by several steps), empty plugin lists / matrices, leftover "
                 "keys, groups without a label. Non-trivial = non-empty tree.",
         "exhaustive": thorough,
